@@ -1,5 +1,8 @@
 //! Child-process entry points (fresh-process determinism runs, crash isolation).
 pub fn main(args: &[String]) -> i32 {
-    let _ = args;
-    2
+    match args.first().map(|s| s.as_str()) {
+        Some("c18") => super::p18::worker_main(&args[1..]),
+        Some("c18-timing") => super::p18::timing_main(),
+        _ => 2,
+    }
 }
